@@ -151,6 +151,32 @@ def install():
     RoutedThread.__qualname__ = "Thread"
     threading.Thread = RoutedThread
 
+    # what the library sees of the process's threads: the main thread, its own threads, and application threads that were started
+    # through the threading module - not threads started behind its back (_thread.start_new_thread, C extensions, embedding hosts),
+    # which a scenario marks with actor.foreign = True
+    _real["active_count"] = threading.active_count
+    _real["enumerate"] = threading.enumerate
+
+    def _visible_actors(s):
+        return [a for a in s.actors if a.state != _sched.DONE and not getattr(a, "foreign", False)]
+
+    def active_count():
+        s = _sim()
+        if s is not None:
+            _count("threading.active_count")
+            return max(1, len(_visible_actors(s)))
+        return _real["active_count"]()
+
+    def enumerate_():
+        s = _sim()
+        if s is not None:
+            _count("threading.enumerate")
+            return [a.thread for a in _visible_actors(s) if getattr(a, "thread", None) is not None] or [threading.main_thread()]
+        return _real["enumerate"]()
+
+    threading.active_count = active_count
+    threading.enumerate = enumerate_
+
     # ---- selectors ----
     _real["DefaultSelector"] = selectors.DefaultSelector
 
